@@ -134,13 +134,20 @@ func ecsAnswer(kind string, req *dns.Msg) (resp *dns.Msg) {
 		kind = "ok"
 	}
 	_, sn := ecsForwarded(req)
+	// "depfx." is ECS dependent like "dep.", and the upstream fails (SERVFAIL,
+	// scoped to the subnet it was asked for) for region X only.
+	if name == "depfx." && sn != nil && sn.SourceNetmask > 0 {
+		if a, ok := netip.AddrFromSlice(sn.Address); ok && (ecsGeoX4.Contains(a.Unmap()) || ecsGeoX6.Contains(a)) {
+			kind = "servfail"
+		}
+	}
 	resp = &dns.Msg{}
 	resp.SetReply(req)
 	resp.RecursionAvailable = true
 	resp.AuthenticatedData = true
 	// "odd." echoes a non-zero scope even for a zero-prefix query.
 	odd := name == "odd."
-	dep := name == "dep." || name == "dep2." || name == ecsFakeName || odd
+	dep := name == "dep." || name == "dep2." || name == "depfx." || name == ecsFakeName || odd
 	cl := dns.Class(q.Qclass).String()
 	sub := 0
 	if dep && name != ecsFakeName && sn != nil && sn.SourceNetmask > 0 {
